@@ -827,13 +827,13 @@ def _build_pronunciation(pron: Pronunciation) -> ET.Element:
     if pron.get('audio'):
         attrib['audio'] = pron['audio']
     elem = ET.Element('Pronunciation', attrib=attrib)
-    elem.text = pron['text']
+    _set_text(elem, pron['text'])
     return elem
 
 
 def _build_tag(tag: Tag) -> ET.Element:
     elem = ET.Element('Tag', category=tag['category'])
-    elem.text = tag['text']
+    _set_text(elem, tag['text'])
     return elem
 
 
@@ -864,10 +864,17 @@ def _build_sense(
 
 def _build_example(example: Example) -> ET.Element:
     elem = ET.Element('Example', attrib=_meta_dict(example.get('meta')))
-    elem.text = example['text']
+    _set_text(elem, example['text'])
     if example.get('language'):
         elem.set('language', example['language'])
     return elem
+
+
+def _set_text(elem: ET.Element, text: str) -> None:
+    elem.text = text
+    # load() normalizes whitespace unless xml:space="preserve" is given
+    if text != ' '.join(text.split()):
+        elem.set('xml:space', 'preserve')
 
 
 def _build_count(count: Count) -> ET.Element:
@@ -916,13 +923,13 @@ def _build_definition(definition: Definition) -> ET.Element:
         attrib['sourceSense'] = definition['sourceSense']
     attrib.update(_meta_dict(definition.get('meta')))
     elem = ET.Element('Definition', attrib=attrib)
-    elem.text = definition['text']
+    _set_text(elem, definition['text'])
     return elem
 
 
 def _build_ili_definition(ili_definition: ILIDefinition) -> ET.Element:
     elem = ET.Element('ILIDefinition', attrib=_meta_dict(ili_definition.get('meta')))
-    elem.text = ili_definition['text']
+    _set_text(elem, ili_definition['text'])
     return elem
 
 
